@@ -63,6 +63,10 @@ struct Colour { int64_t v; };
 static int Colour_ShowHex(var self, var out, int pos) { return print_to(out, pos, "#%lx", $I(((struct Colour*)self)->v)); }
 static int Colour_Show(var self, var out, int pos) { return print_to(out, pos, "rgb(%li)", $I(((struct Colour*)self)->v)); }
 var Colour = Cello(Colour, Instance(ShowHex, Colour_ShowHex), Instance(Show, Colour_Show, NULL));
+/* a value type wider than an Int (24 bytes) with a Show instance: maps whose key and value sizes differ, shown */
+struct Wide24 { int64_t v; int64_t pad[2]; };
+static int Wide24_Show(var self, var out, int pos) { return print_to(out, pos, "w(%li)", $I(((struct Wide24*)self)->v)); }
+var Wide24 = Cello(Wide24, Instance(Show, Wide24_Show, NULL));
 static var mkarg(char kind, const char* v) {
   if (kind == 'B') { struct Both* b = alloc_raw(Both); b->i = strtoll(v, NULL, 10); b->d = (double)b->i + 0.25; return b; }
   if (kind == 'I') return new_raw(Int, $I(strtoll(v, NULL, 10)));
@@ -119,6 +123,10 @@ int main(int argc, char** argv) {
             char* p = strchr(w, ','); var first = NULL;
             while (p && p[1]) { int64_t v = strtoll(p + 1, &p, 10); var e = new_raw(Int, $I(v)); if (!first) first = e; push(a, e); if (*p != ',') break; }
             if (w[1] == 'D' && first) push(a, first);
+          } else if (w[1] == 'M' || w[1] == 'm') {      /* a Tree (M) / Table (m) of Int -> Wide24: key:value pairs, the value 24 bytes wide */
+            a = w[1] == 'M' ? (var)new_raw(Tree, Int, Wide24) : (var)new_raw(Table, Int, Wide24);
+            char* p = strchr(w, ','); int k = 0; int64_t key = 0;
+            while (p && p[1]) { int64_t v = strtoll(p + 1, &p, 10); if (k % 2) set(a, $I(key), $(Wide24, v, {7, 7})); else key = v; k++; if (*p != ',') break; }
           } else if (w[1] == 'V' || w[1] == 'v') {      /* a Slice over a Table (V) / a Tree (v) of Int -> Int: shown as the list of the keys it yields */
             var tb = w[1] == 'V' ? (var)new(Table, Int, Int) : (var)new(Tree, Int, Int);
             char* p = strchr(w, ','); int k = 0; int64_t key = 0;
@@ -148,16 +156,17 @@ int main(int argc, char** argv) {
           parts[np] = strdup(c_str(t)); plen[np] = strlen(c_str(t)); isconv[np] = 1; np++;
           /* a container's text is not taken on trust: it must contain its elements' own show texts, each once, in iteration
              order, joined the way that container kind joins them (built here from foreach + show of every element) */
-          if (w[1] == 'A' || w[1] == 'L' || w[1] == 'T' || w[1] == 'U' || w[1] == 'X' || w[1] == 'R' || w[1] == 'V' || w[1] == 'v') {
+          if (w[1] == 'A' || w[1] == 'L' || w[1] == 'T' || w[1] == 'U' || w[1] == 'X' || w[1] == 'R' || w[1] == 'V' || w[1] == 'v' || w[1] == 'M' || w[1] == 'm') {
             static char body[1 << 16]; size_t bl = 0; int first = 1; size_t cnt = 0, lim = len(a) + 2;
-            const char* open_ = w[1] == 'T' ? "{" : w[1] == 'U' ? "(" : "[";  const char* close_ = w[1] == 'T' ? "}" : w[1] == 'U' ? ")" : "]";
+            int ismap = w[1] == 'T' || w[1] == 'M' || w[1] == 'm';
+            const char* open_ = ismap ? "{" : w[1] == 'U' ? "(" : "[";  const char* close_ = ismap ? "}" : w[1] == 'U' ? ")" : "]";
             bl += (size_t)snprintf(body + bl, sizeof body - bl, "%s", open_);
             foreach (e in a) {                          /* every element shown on its own, at position 0 of a fresh String */
               if (cnt++ > lim) break;
               var es = new_raw(String, $S("")); show_to(e, es, 0);
               bl += (size_t)snprintf(body + bl, sizeof body - bl, "%s%s", first ? "" : ", ", c_str(es)); del_raw(es);
               first = 0;
-              if (w[1] == 'T') { var vs = new_raw(String, $S("")); show_to(get(a, e), vs, 0); bl += (size_t)snprintf(body + bl, sizeof body - bl, ":%s", c_str(vs)); del_raw(vs); }
+              if (ismap) { var vs = new_raw(String, $S("")); show_to(get(a, e), vs, 0); bl += (size_t)snprintf(body + bl, sizeof body - bl, ":%s", c_str(vs)); del_raw(vs); }
               if (bl > sizeof body - 8192) break;
             }
             bl += (size_t)snprintf(body + bl, sizeof body - bl, "%s", close_);
